@@ -19,7 +19,7 @@ TECHNIQUE = ('explicit-state BFS over read/skip/skip-to-next/seek/tell histories
 RULE = ('W: FileWrite on every (trailer subset x max physical record length x TIF on/off x 1-3 record lengths from '
         '{2,3,P-1,P,P+1,2P,2P+1,3P}) compared byte for byte with lis_ref, incl. returned positions; two writers with default '
         'trailers in one process. R: BFS on FileRead over lis_ref files (TIF none/normal/reversed), operations '
-        'readLrBytes(n)/skipLrBytes(n) n in {0,1,2,P,P+1,-1}, skipToNextLr, seekLr(every record start), tellLr, hasLd; '
+        'readLrBytes(n)/skipLrBytes(n) n in {0,1,2,P,P+1,2P+1,3P,-1}, skipToNextLr, seekLr(every record start), tellLr, hasLd; '
         'state = model cursor + (stream.tell,_ldIndex,_ldTell,_mustReadHead,isEOF,tif.previousTell is None,prAttr,ldLen). '
         'T: strip_tif(normal TIF file) == file without TIF. non-trivial = more than one physical record or a trailer or TIF; '
         'outcome = hash of file bytes / search size')
@@ -245,7 +245,9 @@ def step(system, op, check):
 def explore(cfg, depth, res):
     data, lay, recs = ref_file(cfg)
     P = cfg['maxlen'] - 4 - tlen(cfg['trailer'])
-    sizes = sorted({0, 1, 2, min(P, 400), min(P, 400) + 1}) + [-1]
+    Pm = min(P, 400)
+    # 2P+1 and 3P: one sized request that crosses two physical record boundaries of a long logical record
+    sizes = sorted({0, 1, 2, Pm, Pm + 1, 2 * Pm + 1, 3 * Pm}) + [-1]
 
     def make():
         return System(data, lay, recs)
